@@ -19,6 +19,9 @@
 //   R <round> <lane address> <inactive> <nsub> <nctl> <nitems> <wakeup qos> <initial dq_state> <final dq_state>
 //     <seq at begin> <seq at end> <ran> <all ran ok> <suspends> <resumes> <activates> <deep> <final side count> <role after activation>
 //     <wakeup qos after the round>
+//   B <round> <lane address> <inactive> <initial dq_state> <seq at begin>      (printed when the round begins)
+//   K <signal> <round>                                                           (the library crashed: DISPATCH_CLIENT_CRASH
+//                                                                                 or a fault; what was recorded follows)
 //   E ... (dv_record.h format; obj = round for the lane)
 // harness-level events (dv_user, obj = round):
 //   DVU_CALL a = api + 256 * wakeup qos, b = call id      DVU_RET a = api, b = call id      (api: 1 async 2 suspend 3 resume 4 activate)
@@ -39,6 +42,16 @@ static int cur_round, cur_wq;
 static uint64_t round_rng;
 static dispatch_queue_t cur_q;
 static pthread_barrier_t bar;
+
+#include <signal.h>
+static void on_crash(int sig) {
+	// a client crash of the library (e.g. "Over-resume of an object"): keep the recording, it shows how the word got there
+	atomic_store(&dv_enabled, 0);
+	printf("K %d %d\n", sig, cur_round);
+	dv_dump(stdout);
+	fflush(stdout);
+	_exit(66);
+}
 
 static inline uint64_t lcg(uint64_t *r) { *r = *r * 6364136223846793005ull + 1442695040888963407ull; return *r >> 33; }
 
@@ -159,6 +172,7 @@ int main(int argc, char **argv) {
 			(unsigned long long)DISPATCH_QUEUE_INACTIVE, (unsigned long long)DISPATCH_QUEUE_NEEDS_ACTIVATION,
 			(unsigned long long)DISPATCH_QUEUE_ROLE_BASE_ANON, (unsigned long long)DISPATCH_QUEUE_ROLE_MASK);
 	dv_install(seed, permille);
+	signal(SIGILL, on_crash); signal(SIGABRT, on_crash); signal(SIGSEGV, on_crash); signal(SIGBUS, on_crash); signal(SIGTRAP, on_crash);
 	uint64_t r = seed * 6364136223846793005ull + 1442695040888963407ull;
 	int nranges = 0;
 	for (int i = 0; i < rounds; i++) {
@@ -179,6 +193,7 @@ int main(int argc, char **argv) {
 		if (nranges == 60) { dv_untrack_all(); nranges = 0; }
 		dv_track(dl, sizeof(struct dispatch_lane_s), i); nranges++;
 		unsigned long long seq0 = atomic_load(&dv_seq);
+		printf("B %d %" PRIuPTR " %d %" PRIu64 " %llu\n", i, (uintptr_t)dl, inactive, st0, seq0); fflush(stdout);
 		pthread_t ths[MAXS], thc[MAXC], tha[2], thh; targ_t ts[MAXS], tc[MAXC], ta[2], th;
 		pthread_barrier_init(&bar, NULL, (unsigned)(nsub + nctl + nact));
 		th.rng = r ^ 0x1234567ull; pthread_create(&thh, NULL, helper, &th);
